@@ -379,7 +379,11 @@ func (C19) Run(t *testing.T, plan *kernel.Plan, keepLog bool) *kernel.Result {
 				script = append(script, myInsertStmt(names, i+1, "p", []string{v, "extra-bytes"}[:len(cols19)], cols19, plan.Sw("params") == 1, 0))
 				continue
 			}
-			script = append(script, insertStmt(names, i+1, []string{v, "extra-bytes"}[:len(cols19)], cols19, plan.Sw("params") == 1))
+			ins := insertStmt(names, i+1, []string{v, "extra-bytes"}[:len(cols19)], cols19, plan.Sw("params") == 1)
+			if ins.Extended && !mysql {
+				ins.Describe = true // the statement is described before it is bound: parameter types as declared
+			}
+			script = append(script, ins)
 		}
 		read := func(i int) Stmt {
 			st := Stmt{SQL: fmt.Sprintf("SELECT %s FROM t1 WHERE id = %d", strings.Join(names, ", "), i+1)}
@@ -427,6 +431,13 @@ func (C19) Run(t *testing.T, plan *kernel.Plan, keepLog bool) *kernel.Result {
 			// the MySQL driver hands every cell over as text or raw bytes, whatever the row protocol
 			format = 1
 			c19Decode = func(typ string, format int16, cell []byte) (string, error) { return string(cell), nil }
+		}
+		for i := range values {
+			// a described INSERT: the parameter of the typed column (the third) is announced with the declared type
+			if ins := run.Results[i]; i < len(script) && script[i].Describe && ins.Err == "" && len(ins.ParamOIDs) >= 3 && ins.ParamOIDs[2] != c19OID[typ] {
+				w.Violate("C19", "parameter-described-as-declared-type", site, fmt.Sprintf("declared %s (oid %d) but parameter $3 of %q is described with oid %d (all %v)", typ, c19OID[typ], script[i].SQL, ins.ParamOIDs[2], ins.ParamOIDs))
+				break
+			}
 		}
 		for i, v := range values {
 			res := run.Results[len(values)+i]
